@@ -35,6 +35,7 @@ package verifharness
 
 import (
 	"bytes"
+	"encoding/json"
 	"encoding/binary"
 	"fmt"
 	"math/big"
@@ -64,10 +65,11 @@ import (
 	"github.com/tharsis/ethermint/encoding"
 
 	"github.com/teleport-network/teleport/app"
-	"github.com/teleport-network/teleport/x/aggregate"
+	aggregatemodule "github.com/teleport-network/teleport/x/aggregate/module"
+	rvestingmodule "github.com/teleport-network/teleport/x/rvesting/module"
+	xibcmodule "github.com/teleport-network/teleport/x/xibc/module"
 	aggregatetypes "github.com/teleport-network/teleport/x/aggregate/types"
 	rvestingtypes "github.com/teleport-network/teleport/x/rvesting/types"
-	"github.com/teleport-network/teleport/x/xibc"
 	bsctypes "github.com/teleport-network/teleport/x/xibc/clients/light-clients/bsc/types"
 	ethtypes "github.com/teleport-network/teleport/x/xibc/clients/light-clients/eth/types"
 	tmtypes "github.com/teleport-network/teleport/x/xibc/clients/light-clients/tendermint/types"
@@ -100,6 +102,8 @@ type c13Gen struct {
 	x  xibctypes.GenesisState
 	a  aggregatetypes.GenesisState
 	rv rvestingtypes.GenesisState
+	// the module-level JSON (AppModule.ExportGenesis), what ValidateGenesis / InitGenesis of the module manager receive
+	xj, aj, rj json.RawMessage
 }
 
 var c13Amino = codec.NewLegacyAmino()
@@ -186,17 +190,20 @@ func c13Wipe(ctx sdk.Context, w *c13World) {
 
 // ---- export listing -------------------------------------------------------------------------------
 
+// the three modules exactly as the module manager holds them (app.go)
+func (w *c13World) mods() (xibcmodule.AppModule, aggregatemodule.AppModule, rvestingmodule.AppModule) {
+	return xibcmodule.NewAppModule(w.app.XIBCKeeper), aggregatemodule.NewAppModule(*w.app.AggregateKeeper, w.app.AccountKeeper), rvestingmodule.NewAppModule(w.app.RVestingKeeper)
+}
+
+// export through the REAL module entry points: AppModule.ExportGenesis (JSON), as `mm.ExportGenesis` calls them
 func (w *c13World) c13Export(ctx sdk.Context) *c13Gen {
-	g := &c13Gen{}
-	g.x = *xibc.ExportGenesis(ctx, *w.app.XIBCKeeper)
-	g.a = *aggregate.ExportGenesis(ctx, *w.app.AggregateKeeper)
-	g.rv = *w.app.RVestingKeeper.ExportGenesis(ctx)
-	// JSON marshal / unmarshal with the app codec (what `export` + `init` of a node do)
 	cdc := w.app.AppCodec()
-	out := &c13Gen{}
-	cdc.MustUnmarshalJSON(cdc.MustMarshalJSON(&g.x), &out.x)
-	cdc.MustUnmarshalJSON(cdc.MustMarshalJSON(&g.a), &out.a)
-	cdc.MustUnmarshalJSON(cdc.MustMarshalJSON(&g.rv), &out.rv)
+	xm, am, rm := w.mods()
+	out := &c13Gen{xj: xm.ExportGenesis(ctx, cdc), aj: am.ExportGenesis(ctx, cdc), rj: rm.ExportGenesis(ctx, cdc)}
+	// decoded only for the canonical listing and the export-vs-store oracles
+	cdc.MustUnmarshalJSON(out.xj, &out.x)
+	cdc.MustUnmarshalJSON(out.aj, &out.a)
+	cdc.MustUnmarshalJSON(out.rj, &out.rv)
 	return out
 }
 
@@ -623,6 +630,48 @@ func (w *c13World) apply(r *Rec, op string) (out string) {
 		}
 		w.gen = g
 		w.list1 = w.c13Listing(g)
+		if w.reachable {
+			// which parameter combination / zero-valued sub-structures went through the module-level import
+			m := c13ParseDump(w.dump1)
+			bit := func(k string) string {
+				if m["p:"+hxs(k)] == hxs("true") {
+					return "1"
+				}
+				return "0"
+			}
+			r.Count("combo.agg." + bit("aggregate/EnableAggregate") + bit("aggregate/EnableEVMHook") + ".rv." + bit("rvesting/EnableVesting"))
+			if len(g.x.ClientGenesis.Relayers) == 0 {
+				r.Count("zero.no-relayers")
+			}
+			for _, rl := range g.x.ClientGenesis.Relayers {
+				if len(rl.Chains) == 0 {
+					r.Count("zero.relayer-without-chains")
+				}
+			}
+			if len(g.a.TokenPairs) == 0 {
+				r.Count("zero.no-token-pairs")
+			}
+			for _, tp := range g.a.TokenPairs {
+				if !tp.Enabled {
+					r.Count("zero.pair-disabled")
+				}
+			}
+			if len(g.x.ClientGenesis.Clients) == 0 {
+				r.Count("zero.no-clients")
+			}
+			if len(g.x.PacketGenesis.SendSequences)+len(g.x.PacketGenesis.Commitments)+len(g.x.PacketGenesis.Receipts)+len(g.x.PacketGenesis.Acknowledgements) == 0 {
+				r.Count("zero.no-packet-state")
+			}
+			allZero := len(g.rv.Params.PerBlockReward) > 0
+			for _, c := range g.rv.Params.PerBlockReward {
+				if !c.Amount.IsZero() {
+					allZero = false
+				}
+			}
+			if allZero {
+				r.Count("zero.reward-all-zero")
+			}
+		}
 		// every exported client-metadata entry has a non-empty key and a non-empty value (what GenesisMetadata.Validate demands),
 		// checked on the export itself — independent of the module's Validate() and of any re-import
 		if w.reachable {
@@ -687,13 +736,16 @@ func (w *c13World) apply(r *Rec, op string) (out string) {
 		}
 		var err error
 		pan, msg := safely(func() {
-			if err = w.gen.x.Validate(); err != nil {
+			// AppModuleBasic.ValidateGenesis(cdc, txCfg, json) of the three modules, as ModuleBasics.ValidateGenesis calls them
+			cdc := w.app.AppCodec()
+			txc := encoding.MakeConfig(app.ModuleBasics).TxConfig
+			if err = (xibcmodule.AppModuleBasic{}).ValidateGenesis(cdc, txc, w.gen.xj); err != nil {
 				return
 			}
-			if err = w.gen.a.Validate(); err != nil {
+			if err = (aggregatemodule.AppModuleBasic{}).ValidateGenesis(cdc, txc, w.gen.aj); err != nil {
 				return
 			}
-			err = rvestingtypes.ValidateGenesis(&w.gen.rv)
+			err = (rvestingmodule.AppModuleBasic{}).ValidateGenesis(cdc, txc, w.gen.rj)
 		})
 		if pan {
 			err = fmt.Errorf("panic: %s", msg)
@@ -722,9 +774,12 @@ func (w *c13World) apply(r *Rec, op string) (out string) {
 		w.ctx2, _ = w.base.CacheContext()
 		c13Wipe(w.ctx2, w)
 		pan, msg := safely(func() {
-			xibc.InitGenesis(w.ctx2, *w.app.XIBCKeeper, false, &w.gen.x)
-			aggregate.InitGenesis(w.ctx2, *w.app.AggregateKeeper, w.app.AccountKeeper, w.gen.a)
-			w.app.RVestingKeeper.InitGenesis(w.ctx2, &w.gen.rv)
+			// AppModule.InitGenesis(ctx, cdc, json) of the three modules, as the module manager's InitGenesis calls them
+			cdc := w.app.AppCodec()
+			xm, am, rm := w.mods()
+			xm.InitGenesis(w.ctx2, cdc, w.gen.xj)
+			am.InitGenesis(w.ctx2, cdc, w.gen.aj)
+			rm.InitGenesis(w.ctx2, cdc, w.gen.rj)
 		})
 		if pan {
 			r.Count("init.panic")
@@ -1477,6 +1532,11 @@ func (w *c13World) genHistory(r *Rec, emit func(string), size int) {
 	// relayers
 	for i := r.Rng.Intn(size + 1); i > 0; i-- {
 		ir := clienttypes.IdentifiedRelayer{Address: sdk.AccAddress(c13Bytes(r, 20)).String()}
+		if r.Rng.Intn(4) == 0 {
+			// bech32 is case-insensitive as a whole: the all-upper-case spelling is a valid address string, and a different store key
+			ir.Address = strings.ToUpper(ir.Address)
+			r.Count("relayer.uppercase-bech32")
+		}
 		for j := r.Rng.Intn(3); j > 0; j-- {
 			ir.Chains = append(ir.Chains, c13Name(r, map[string]bool{}))
 			ir.Addresses = append(ir.Addresses, common.BytesToAddress(c13Bytes(r, 20)).Hex())
@@ -1754,7 +1814,11 @@ func c13RvParamsLine(r *Rec, via string, valid bool) string {
 
 // ---- whole-app export / init (app/export.go) ------------------------------------------------------------------
 
-func c13AppExport(t *testing.T, r *Rec) {
+func c13AppExport(t *testing.T, r *Rec) { c13AppExportWith(t, r, false) }
+
+// allOff: every boolean parameter of the three modules false (a zero-valued Params struct is NOT an absent one) — the whole-app
+// path goes through ExportAppStateAndValidators and InitChain, i.e. the module manager's ExportGenesis / InitGenesis
+func c13AppExportWith(t *testing.T, r *Rec, allOff bool) {
 	a := app.Setup(false, nil)
 	w := &c13World{app: a}
 	w.base = a.BaseApp.NewContext(false, tmproto.Header{Height: 1, ChainID: "teleport_9000-1", Time: time.Unix(1700000000, 0)})
@@ -1767,6 +1831,19 @@ func c13AppExport(t *testing.T, r *Rec) {
 			t.Fatalf("app-export setup op %q -> %s", op, out)
 		}
 	}, 2)
+	if allOff {
+		for _, op := range []string{
+			fmt.Sprintf("param %s %s %s", hxs("aggregate"), hxs("EnableAggregate"), hxs("false")),
+			fmt.Sprintf("param %s %s %s", hxs("aggregate"), hxs("EnableEVMHook"), hxs("false")),
+			fmt.Sprintf("rvparams prop 0 1 %s 0", hxs("atele")),
+		} {
+			ops = append(ops, op)
+			if out := w.apply(r, op); out != "ok" {
+				t.Fatalf("app-export setup op %q -> %s", op, out)
+			}
+		}
+		r.Count("appexport.all-switches-off")
+	}
 	d1 := c13DumpStore(w.ctx, w)
 	a.Commit()
 	var exp []byte
@@ -1876,6 +1953,25 @@ func c13WriteCorpus(t *testing.T, r *Rec, dir string) {
 			for i := 0; i < 101; i++ {
 				emit(fmt.Sprintf("nextseq %s %s %d", hxs("teleport"), hxs(fmt.Sprintf("dst%d", i)), 1+i))
 			}
+		}},
+		{"params-all-switches-off", func(emit func(string)) {
+			// governance switched everything off: a zero-valued Params struct is a legitimate state, not an absent section
+			emit(fmt.Sprintf("param %s %s %s", hxs("aggregate"), hxs("EnableAggregate"), hxs("false")))
+			emit(fmt.Sprintf("param %s %s %s", hxs("aggregate"), hxs("EnableEVMHook"), hxs("false")))
+			emit(fmt.Sprintf("rvparams prop 0 1 %s 0", hxs("atele")))
+		}},
+		{"relayer-uppercase-bech32", func(emit func(string)) {
+			// the all-upper-case spelling of a bech32 address is valid and is another store key ("relayers" + address as given)
+			for i := 0; i < 2; i++ {
+				a := sdk.AccAddress(c13Bytes(r, 20)).String()
+				if i == 0 {
+					a = strings.ToUpper(a)
+				}
+				ir := clienttypes.IdentifiedRelayer{Address: a, Chains: []string{"bsc"}, Addresses: []string{common.BytesToAddress(c13Bytes(r, 20)).Hex()}}
+				emit("relayer " + hx(w.app.AppCodec().MustMarshal(&ir)))
+			}
+			ir := clienttypes.IdentifiedRelayer{Address: sdk.AccAddress(c13Bytes(r, 20)).String()} // no chains at all
+			emit("relayer " + hx(w.app.AppCodec().MustMarshal(&ir)))
 		}},
 		{"rv-unsorted-reward", func(emit func(string)) {
 			// reward lists the validator accepts but sdk.NewCoins would change: unsorted (set by a parameter-change proposal)
@@ -2167,5 +2263,6 @@ func TestC13(t *testing.T) {
 	}
 	if r.Shard == 0 {
 		c13AppExport(t, r)
+		c13AppExportWith(t, r, true)
 	}
 }
